@@ -47,8 +47,8 @@ impl App for TApp {
             Ev::Start(k) => {
                 let i = model.handles.len();
                 let (cmd, handle) = match k {
-                    Kind::After => { let (b, h) = Time::notify_after(Duration::from_secs(2)); (b.then_send(move |o| Ev::Out(i, o)), h) }
-                    Kind::At => { let (b, h) = Time::notify_at(SystemTime::UNIX_EPOCH + Duration::from_secs(1_700_000_000)); (b.then_send(move |o| Ev::Out(i, o)), h) }
+                    Kind::After => { let (b, h) = Time::notify_after(vh::when::dur(i)); (b.then_send(move |o| Ev::Out(i, o)), h) }
+                    Kind::At => { let (b, h) = Time::notify_at(vh::when::at(i)); (b.then_send(move |o| Ev::Out(i, o)), h) }
                 };
                 model.ids.push(id_of_debug(&format!("{:?}", handle)));
                 model.handles.push(Some(handle));
